@@ -516,7 +516,7 @@ class Runner:
         res = [None] * n
         orc_in = []
         for ln, o in zip(lines, impl_out):
-            body = o[5:] if o.startswith('!BAD ') else o
+            body = o[5:] if o.startswith('!BAD ') else ('' if o.startswith('!ERR') else o)
             orc_in.append(ln.split('|')[0] + '|' + ln.split('|')[1] + '|' + body)
         _, digits, _ = vlib.run_lines(self.model, orc_in, ['oracle'])
         digits += [''] * (n - len(digits))
